@@ -51,6 +51,34 @@ def layouts(tier):
     return L
 
 
+def generated(tier):
+    """every sequence of 2 (thorough: 3) definitions whose values are drawn from
+    {absent, literal, '$other', '$$x', '${other}x', ' padded '} with symbolic names, followed by
+    a use; plus the same pairs split over an %include in both directions"""
+    def val(kind, j):
+        nm = ['n', 1]
+        return {'E': [], 'L': [' ', D1], 'R': [' $', nm], 'Q': [' $$', D1], 'B': [' ${', nm, '}x'],
+                'P': ['  ', D1, ' ']}[kind]
+    kinds = 'ELRQBP'
+    out = []
+    import itertools
+    n = 2
+    seqs = list(itertools.product(kinds, repeat=2))
+    if tier != 'quick':
+        seqs += [s for i, s in enumerate(itertools.product(kinds, repeat=3)) if i % 4 == 0]
+    for seq in seqs:
+        lines = [['%define ', N1] + val(k, j) for j, k in enumerate(seq)]
+        lines.append(['k1 [$', N1, ']'])
+        out.append([['main.conf', lines]])
+    # the same namespace across an include: first definition outside, second inside, and vice versa
+    for seq in (list(itertools.product('ELR', repeat=2)) if tier == 'quick' else list(itertools.product(kinds, repeat=2))):
+        a = ['%define ', N1] + val(seq[0], 0)
+        b = ['%define ', N1] + val(seq[1], 1)
+        out.append([['main.conf', [a, '%include inc.conf', ['k1 [$', N1, ']']]], ['inc.conf', [b]]])
+        out.append([['main.conf', ['%include sub/inc.conf', b, ['k1 [$', N1, ']']]], ['sub/inc.conf', [a]]])
+    return out
+
+
 def twice(tier):
     m = lambda lines: [['main.conf', lines]]
     T = [
@@ -83,13 +111,14 @@ class C05(P.TextMixin, Harness):
 
     @property
     def bounds(self):
-        return {t: {'layouts': len(layouts(t)), 'twice': len(twice(t))} for t in ('quick', 'thorough')}
+        return {t: {'layouts': len(layouts(t)), 'generated_define_sequences': len(generated(t)),
+                    'twice': len(twice(t))} for t in ('quick', 'thorough')}
 
     def budget(self, tier):
         return 170 if tier == 'quick' else 1200
 
     def units(self, tier):
-        us = [{'files': f} for f in layouts(tier)]
+        us = [{'files': f} for f in layouts(tier) + generated(tier)]
         us += [{'files': a, 'files2': b} for a, b in twice(tier)]
         return us
 
